@@ -71,6 +71,7 @@ type modelFS struct {
 	cloneLog []cloneOp
 	cloneEmu bool
 	shortWrite int // -1 none; else the crash cuts the write after this many bytes
+	shortFaults map[int]int // write call number -> bytes accepted before the write fails with ENOSPC
 	blk        int64
 }
 
@@ -111,9 +112,23 @@ func (i *interpreter) fsMutate(fr *frame, op string, path value) {
 		panic(crashPanic{})
 	}
 	fs.muts = append(fs.muts, fsMutation{op, pathStr(path)})
+}
+
+// fsYield is the scheduling point of a mutating file-system call.  It comes before the call
+// looks at the tree: a system call is atomic, so other goroutines run before it or after it,
+// never between its checks and its effect.
+func (i *interpreter) fsYield(fr *frame) {
 	if len(i.ps.sched.gs) > 1 && !i.ps.fsNoYield {
 		i.ps.sched.yield(fr)
 	}
+}
+
+var fsMutatingOps = map[string]bool{
+	"(*os.File).Write": true, "(*os.File).WriteString": true, "(*os.File).WriteAt": true, "(*os.File).readFrom": true,
+	"(*os.File).Truncate": true, "os.Truncate": true, "(*os.File).Chmod": true, "os.Remove": true, "syscall.Unlink": true,
+	"os.RemoveAll": true, "os.Mkdir": true, "os.MkdirAll": true, "os.Rename": true, "os.Symlink": true, "os.Chown": true,
+	"os.Lchown": true, "os.Chtimes": true, "os.Chmod": true, "syscall.Chmod": true, "syscall.Mknod": true, "os.MkdirTemp": true,
+	"github.com/pkg/xattr.LSet": true,
 }
 
 func pathStr(p value) string {
@@ -148,6 +163,7 @@ const (
 	ePERM     = 1
 	eNOENT    = 2
 	eIO       = 5
+	eNOSPC    = 28
 	eBADF     = 9
 	eEXIST    = 17
 	eXDEV     = 18
@@ -536,6 +552,9 @@ func errTuple(vals ...value) value { return tuple(vals) }
 
 func (i *interpreter) openFile(fr *frame, path value, flags int, perm uint32) value {
 	nilFile := (*value)(nil)
+	if flags&(oCREATE|oTRUNC) != 0 {
+		i.fsYield(fr)
+	}
 	if i.fsFault("open") {
 		return tuple{nilFile, i.pathError("open", path, eIO)}
 	}
@@ -618,10 +637,11 @@ func (i *interpreter) fileWrite(fr *frame, f *mfile, p []value, off int64, useOf
 	if f.flags&(oWRONLY|oRDWR) == 0 && !f.console {
 		return tuple{0, i.pathError(op, f.name, eBADF)}
 	}
+	fs := i.ps.fs
+	shortN, isShort := fs.shortFaults[fs.calls["write"]]
 	if i.fsFault("write") {
 		return tuple{0, i.pathError(op, f.name, eIO)}
 	}
-	fs := i.ps.fs
 	pos := f.off
 	if useOff {
 		pos = off
@@ -642,6 +662,14 @@ func (i *interpreter) fileWrite(fr *frame, f *mfile, p []value, off int64, useOf
 		panic(crashPanic{})
 	}
 	i.fsMutate(fr, "write", f.name)
+	if isShort && shortN < len(p) {
+		// the device accepts a prefix and then runs out of space
+		i.writeData(f.node, p[:shortN], pos)
+		if !useOff {
+			f.off = pos + int64(shortN)
+		}
+		return tuple{shortN, i.pathError(op, f.name, eNOSPC)}
+	}
 	i.writeData(f.node, p, pos)
 	if !useOff {
 		f.off = pos + int64(len(p))
@@ -678,7 +706,16 @@ func (i *interpreter) truncateNode(n *mnode, size int64) {
 func (i *interpreter) strArg(v value) value { return v }
 
 func init() {
-	R := reg
+	R := func(name string, f intrinsic) {
+		if fsMutatingOps[name] {
+			g := f
+			f = func(i *interpreter, fr *frame, fn *ssa.Function, a []value) value {
+				i.fsYield(fr)
+				return g(i, fr, fn, a)
+			}
+		}
+		reg(name, f)
+	}
 	R("os.Open", func(i *interpreter, fr *frame, fn *ssa.Function, a []value) value { return i.openFile(fr, a[0], 0, 0) })
 	R("os.Create", func(i *interpreter, fr *frame, fn *ssa.Function, a []value) value {
 		return i.openFile(fr, a[0], oRDWR|oCREATE|oTRUNC, 0666)
@@ -1154,6 +1191,15 @@ func init() {
 			fs.faults[op][a[1].(int)] = true
 			return nil
 		})
+		// vFSShortWrite(nth, k): the nth write accepts k bytes and then fails with ENOSPC.
+		R(p+"vFSShortWrite", func(i *interpreter, fr *frame, fn *ssa.Function, a []value) value {
+			fs := i.ps.fs
+			if fs.shortFaults == nil {
+				fs.shortFaults = map[int]int{}
+			}
+			fs.shortFaults[a[0].(int)] = a[1].(int)
+			return nil
+		})
 		R(p+"vFSCalls", func(i *interpreter, fr *frame, fn *ssa.Function, a []value) value { return i.ps.fs.calls[argStr(a[0])] })
 		R(p+"vFSMutations", func(i *interpreter, fr *frame, fn *ssa.Function, a []value) value { return len(i.ps.fs.muts) })
 		// vCrashAt(k, short, after): the world stops before the k-th file-system mutation from now
@@ -1300,6 +1346,7 @@ var _ = token.NoPos
 //   - ranges within one file must not overlap
 //   - the destination is extended if the range ends beyond its EOF
 func (i *interpreter) cloneRange(fr *frame, dst, src *mfile, srcOff, length, dstOff int64) int {
+	i.fsYield(fr)
 	fs := i.ps.fs
 	if dst == nil || src == nil || dst.closed || src.closed {
 		return eBADF
